@@ -70,7 +70,7 @@ def acyclicUnroll (c : Circuit) (ord ordF : Ord) : E Circuit :=
         feedback.foldlM (fun a2 f => liftO (a2.setType [ci ++ "_aux_in_" ++ f] "input")) a1) acyc >>= fun acyc =>
   let last := "c" ++ toString feedback.length
   (ord c.outputs).foldlM (fun a o =>
-      if a.has o then liftO (a.setOutput [o] true)
+      if sp.contains o then liftO (a.setOutput [o] true)
       else addC a { n := o, ty := "buf", fanin := [last ++ "_" ++ o], output := true }) acyc >>= fun acyc =>
   if lint acyc {} ord != .ok then .error .valueError else
   if isCyclic acyc then .error .valueError else pure acyc
